@@ -7,6 +7,12 @@
 (* obs is what the last call reported: for a query whether the function    *)
 (* was registered, whether the call raised and whether the answer differs  *)
 (* from the value of the current content.                                  *)
+(*                                                                         *)
+(* The alphabet is large (18 calls x chromosomes x functions), so the      *)
+(* exhaustive runs explore slices ("modes", fixed per behaviour by the     *)
+(* initial state): broad ones with all query kinds to a small depth, and   *)
+(* focus modes with few calls and one query kind to a larger depth.        *)
+(* Cache_sim.cfg / MC_Cache_sim.cfg walk the full alphabet at random.      *)
 (***************************************************************************)
 EXTENDS CacheOps, TLC, IOUtils
 
@@ -19,7 +25,8 @@ CONSTANTS NT,        \* test chromosome slots
           CFSeq,     \* all coverage functions as a list
           MaxDepth,  \* bound on the number of calls in a behaviour
           Ops,       \* the calls explored (a slice of the alphabet)
-          Modes,     \* which initial populations: "T" one test, "S" test + suite, "A" = "S" with all calls
+          Modes,     \* slices explored: "T" one test + test-level calls, "S" test + suite + suite-level
+                     \* calls, "A" everything, "C*"/"M*"/"P*" focus modes (below)
           MaxTop,    \* bound on live test chromosomes for tclone
           ExtraT,    \* additional calls explored from the one-test population (mode "T")
           ExtraC,    \* ... in the clone focus modes
@@ -58,10 +65,8 @@ PatMOps == {"sq", "tq", "smut", "sxo", "sadd", "sadds", "sdel", "sset", "sclone"
 ModeOps(m) == IF m = "T" THEN TestOps ELSE IF m = "S" THEN SuiteOps
               ELSE IF m \in PatM THEN PatMOps
               ELSE IF m \in FocusC THEN CloneOps ELSE IF m \in FocusM THEN MemberOps ELSE AllOps
-ModesTS == {"T", "S"}
 ModesAll == {"T", "S"} \cup FocusC \cup FocusM
 ModesDesign == ModesAll \ (PatC \cup PatM)
-PatModes == PatC \cup PatM
 ModesA == {"A"}
 ModesSim == {"A"} \cup FocusC \cup FocusM
 
@@ -192,4 +197,8 @@ CleanMeansCurrent ==
      /\ W.t[a].res \in {None, W.t[a].c}
      /\ \A f \in FF : W.t[a].fit[f] \in {None, W.t[a].c} /\ W.t[a].isc[f] \in {None, W.t[a].c}
      /\ \A g \in CF : W.t[a].cov[g] \in {None, W.t[a].c}
+SuiteCleanMeansCurrent ==
+  \A s \in SIds : (W.s[s].alive /\ ~W.s[s].chg) =>
+     /\ \A f \in FF : W.s[s].fit[f] \in {NoneS, SuiteValue(W, s)} /\ W.s[s].isc[f] \in {NoneS, SuiteValue(W, s)}
+     /\ \A g \in CF : W.s[s].cov[g] \in {NoneS, SuiteValue(W, s)}
 =============================================================================
